@@ -87,30 +87,34 @@ Print Assumptions PIPE_pipeline_eval_total.
 From Burrow Require Import StorageWindows StorageDelProofs.
 From Burrow Require WireProofs WireRoundtripProofs WireEnc.
 
-(* e2e_lag_exact.  Intended statement: for every sequence of events, in the status reply for (cluster, group), CurrentLag of
-   (topic, partition) = max 0 (the offset the brokers ANSWERED for it in the last cycle that got an answer - the offset of
-   the newest well-formed commit MESSAGE for it, by log position, not dropped by the documented rules), and TotalLag = the
-   sum modulo 2^64 - in terms of wire bytes and broker answers only.
-   Proved (this theorem + PIPE_last_answer_spec): after ANY event sequence, in the answer to a status request:
-   every listed partition has 0 <= CurrentLag < 2^64; no reported commit => CurrentLag = 0; newest reported commit k =>
-     * CurrentLag = max 0 (b - k.offset) where b = [last_answer]: by PIPE_last_answer_spec the first offset of the ErrNoError
-       answer that the broker asked for (topic, partition) gave in a cycle of this cluster, no later cycle having got an
-       answer for it (C11 composed with C01; the broker side is entirely in terms of the scripted broker answers);
+(* e2e_lag_exact.  For every sequence of events, in the status reply for (cluster, group): CurrentLag of (topic, partition) =
+   max 0 (the offset the brokers ANSWERED for it in the last cycle that got an answer - the offset of the newest well-formed
+   commit MESSAGE for it, by log position, not dropped by the documented rules), and TotalLag = the sum modulo 2^64.
+   After ANY event sequence, in the answer to a status request: every listed partition has 0 <= CurrentLag < 2^64; no
+   reported commit => CurrentLag = 0; newest reported commit k =>
+     * CurrentLag = max 0 (b - k.offset), b = [last_answer]: by PIPE_last_answer_spec the first offset of the ErrNoError answer
+       that the broker asked for (topic, partition) gave in a cycle of this cluster, no later cycle having got an answer for it
+       (C11 composed with C01);
      * k is the (offset, log position) of a commit the cluster's reader decoded from a MESSAGE of the sequence, the log
        position being that message's own offset in the offsets log (C07 composed with C01/C02; C06_commit_update_wellformed
        and C07_offset_roundtrip say exactly which byte strings decode to it);
-     * no commit that reached the window since the window was last removed has a higher log position (C02 lifted by
-       StorageWindows); "reached the window" is StorageWindows.arrivals: a commit request of the history that storage did
-       not drop on arrival - known cluster, timestamp not older than expire-group at the clock of arrival, group accepted by
-       storage's lists, broker offset known for the partition - and every such request was decoded from a message (second
-       item, lemma hist_from_message);
+     * k is a LIVE commit and no live commit of this group / topic / partition has a higher log position.  [live_commit_h] is
+       a closed condition on the produced request list h: the commit request stands at some position of h, where
+         [accepted_on_arrival]: its cluster is configured; its timestamp is not older than expire-group at the clock it
+           arrived at; storage's lists accept the group (the reader's lists: otherwise there is no request at all,
+           C10_reader_rejected_silent); its partition is >= 0; and before it h holds a SetBrokerOffset for exactly
+           (cluster, topic, partition) that no DeleteTopic of that topic follows (StorageProofs.broker_known_spec);
+         [not_removed_after_h]: no later request of h deletes the topic, deletes the group (whole or this topic), or is a
+           FetchConsumer for the group at a clock at which the group has expired - the timestamp of the last commit of the
+           group that was placed as the newest since the group was last created being a recursion over the request list
+           (StorageWindows.h_ginfo, group_expired_history).
+       h is the concatenation, in event order, of every event's requests stamped with the clock the event met
+       (PIPE_hist_split_events): a commit request is a decoded message (second item), a SetBrokerOffset an answered broker
+       offset of a cluster cycle and a DeleteTopic a deletion of that cycle (cluster_to_storage; C11_answer_to_update, C12),
+       a DeleteGroup a group tombstone (wire_to_storage), a FetchConsumer a status request; the clock is the last Tick.
    TotalLag = sum of the listed CurrentLags modulo 2^64 (C04).
-   _partial because of the third item: which messages are "not dropped by the documented rules" is expressed through the
-   storage layer's own predicate on the state at arrival (StorageProofs.reaches_ring / resets), not re-derived as a
-   closed condition on the events alone (that needs "a broker offset is known in the state iff one was answered since
-   the topic was last deleted", which no layer proves yet).  The executable oracle of checks/pipegen.py evaluates the
-   event-level reading (drop rules from the events alone) on the real code on every run. *)
-Theorem PIPE_e2e_lag_exact_partial :
+   Built on builder lag's history-level lemmas reaches_ring_history / broker_known_iff_history / group_expired_history. *)
+Theorem PIPE_e2e_lag_exact :
   forall (name : list Z -> Z) pc,
     (1 <= cf_intervals (pc_storage pc))%nat -> Z.of_nat (cf_intervals (pc_storage pc)) <= 2 ^ 24 ->
     forall now0 evs ps outs h c g showall ps' cz gz sa gsv,
@@ -131,12 +135,74 @@ Theorem PIPE_e2e_lag_exact_partial :
                  Wire.process_message (pc_reader_accept pc c) key value (co_order k) = Wire.Done rs al /\
                  In (Wire.SetConsumerOffset g0 t0 (ps_partition pst) (co_offset k) ts (co_order k)) rs /\
                  name g0 = name g /\ name t0 = ps_topic pst) /\
-             (forall x, In x (arrivals (pc_storage pc) (pc_clusters pc) h c (name g) (ps_topic pst) (ps_partition pst)) ->
-                        cm_order (fst x) <= co_order k)
+             (exists ts, live_commit_h (pc_storage pc) (pc_clusters pc) h c (name g) (ps_topic pst) (ps_partition pst)
+                                       (mkCommit (co_offset k) (co_order k) ts)) /\
+             (forall cm, live_commit_h (pc_storage pc) (pc_clusters pc) h c (name g) (ps_topic pst) (ps_partition pst) cm ->
+                         cm_order cm <= co_order k)
          end) /\
       gs_totallag gs = fold_right Z.add 0 (map ps_lag (gs_partitions gs)) mod two64.
-Proof. exact lag_exact. Qed.
-Print Assumptions PIPE_e2e_lag_exact_partial.
+Proof. exact lag_exact_closed. Qed.
+Print Assumptions PIPE_e2e_lag_exact.
+
+(* the definitions the statement uses, spelled out *)
+Theorem PIPE_live_commit_h_unfold :
+  forall cf cls h c g t p cm,
+    live_commit_h cf cls h c g t p cm <->
+    exists h1 now h2,
+      h = h1 ++ (now, SetConsumerOffset c g t p (cm_offset cm) (cm_order cm) (cm_ts cm)) :: h2 /\
+      (in_cls c cls && negb (too_old cf now (cm_ts cm)) && cf_accept cf g && (0 <=? p) && broker_known h1 c t p) = true /\
+      forall h2a now' r h2b, h2 = h2a ++ (now', r) :: h2b ->
+        match r with
+        | DeleteTopic c' t' => (c' =? c) && (t' =? t)
+        | DeleteGroup c' g' t' => (c' =? c) && (g' =? g) && ((t' =? 0) || (t =? t'))
+        | _ => false
+        end = false /\
+        match r with
+        | FetchConsumer c' g' =>
+            (c' =? c) && (g' =? g) &&
+            match h_ginfo cf cls ((h1 ++ [(now, SetConsumerOffset c g t p (cm_offset cm) (cm_order cm) (cm_ts cm))]) ++ h2a) c g with
+            | Some (L, _) => expired cf now' L
+            | None => false
+            end
+        | _ => false
+        end = false.
+Proof. intros. reflexivity. Qed.
+Print Assumptions PIPE_live_commit_h_unfold.
+
+(* the window's arrival list of the storage layer (C02's theorems speak about it) holds exactly the live commits *)
+Theorem PIPE_window_is_live_commits :
+  forall cf cls c g t p h st reps cm,
+    (1 <= cf_intervals cf)%nat -> wf_hist h -> run cf (init_state cls) h = Some (st, reps) ->
+    ((exists lagv, In (cm, lagv) (arrivals cf cls h c g t p)) <-> live_commit_h cf cls h c g t p cm).
+Proof.
+  intros cf cls c g t p h st reps cm HN Hwf Hrun.
+  rewrite (arrivals_are_live_commits cf cls c g t p h st reps Hrun cm).
+  exact (live_commit_h_iff cf cls h st reps c g t p cm HN Hwf Hrun).
+Qed.
+Print Assumptions PIPE_window_is_live_commits.
+
+(* positions in the produced request list are positions in the event sequence: a request of h belongs to exactly one event,
+   carries the clock that event met, everything before it comes from earlier events (or earlier requests of the same
+   event), everything after it from later ones *)
+Theorem PIPE_hist_split_events :
+  forall (name : list Z -> Z) pc evs ps ps' outs h ha now r hb,
+    pipe_exec name pc ps evs = Some (ps', outs, h) -> h = ha ++ (now, r) :: hb ->
+    exists evs1 ev evs2 ps1 o1 h1 rs ra rb ps2 o2 h2 outs_ev,
+      evs = evs1 ++ ev :: evs2 /\
+      pipe_exec name pc ps evs1 = Some (ps1, o1, h1) /\
+      event_reqs name pc ps1 ev = Some rs /\ rs = ra ++ r :: rb /\ now = p_now ps1 /\
+      pipe_step name pc ps1 ev = Some (ps2, outs_ev) /\
+      pipe_exec name pc ps2 evs2 = Some (ps', o2, h2) /\
+      ha = h1 ++ stamp (p_now ps1) ra /\ hb = stamp (p_now ps1) rb ++ h2.
+Proof. intros name pc. exact (hist_split_events name pc). Qed.
+Print Assumptions PIPE_hist_split_events.
+
+(* the expiry purge is observable: the request that purges the group is answered "not found" *)
+Theorem PIPE_purge_is_404 :
+  forall cf now st c g r st' rep,
+    purges cf now st c g r = true -> step cf now st r = Done st' rep -> rep = RNil.
+Proof. exact purge_is_404. Qed.
+Print Assumptions PIPE_purge_is_404.
 
 (* the problems-only view carries the same TotalLag and summary, and exactly the partitions worse than OK (C04) *)
 Theorem PIPE_view_filtered :
@@ -272,3 +338,15 @@ Example PIPE_ex_truncated :
   pipe_run ex_name (ex_pc true) 2 [ClusterCycle 1 true ex_env; KafkaMessage 1 WireEnc.lit_okey1 (removelast WireEnc.lit_oval0) 7]
   = pipe_run ex_name (ex_pc true) 2 [ClusterCycle 1 true ex_env].
 Proof. vm_compute. reflexivity. Qed.
+
+(* the commit of PIPE_ex_lag is a live commit of the produced request list: 12 broker offsets, then the commit *)
+Example PIPE_ex_live :
+  exists ps outs h,
+    pipe_run ex_name (ex_pc true) 2 ex_events = Some (ps, outs, h) /\
+    live_commit_h (pc_storage (ex_pc true)) (pc_clusters (ex_pc true)) h 1 116 116 11 (mkCommit 8372 7 1637).
+Proof.
+  eexists _, _, _. split; [vm_compute; reflexivity|].
+  match goal with |- live_commit_h _ _ ?h _ _ _ _ _ => exists (removelast h), 2, [] end.
+  split; [vm_compute; reflexivity|]. split; [vm_compute; reflexivity|].
+  intros h2a now' r h2b E. destruct h2a; discriminate.
+Qed.
